@@ -417,6 +417,49 @@ func CheckOp(c *Ctx, req mon.OpReq, exp Expect, viaModel bool, mo mon.ModelOpts,
 			c.Count("models-with-the-node-between-two-others", 1)
 		}
 	}
+	if viaModel && c.Idx%16 == 4 && exp.Kind == MustEqual && ok {
+		// the node behind another node of its own operator type that carries other (valid, non-default)
+		// attributes and reads its own weights: what the node computes does not depend on how an
+		// earlier node of the same type was configured. The sibling's results are outputs of the graph.
+		if sib, sexp, sok := SampleValidReq(c.R, req.Op, true); sok {
+			g, feed := mon.BuildOpModel(req, mo)
+			nOut := len(g.Outputs)
+			sn := mon.GNode{Op: sib.Op, Name: "sibling", Attrs: sib.Attrs}
+			for i, in := range sib.Inputs {
+				if in == nil {
+					sn.Inputs = append(sn.Inputs, "")
+					continue
+				}
+				name := fmt.Sprintf("sib_i%d", i)
+				sn.Inputs = append(sn.Inputs, name)
+				g.Inits = append(g.Inits, mon.GInit{Name: name, T: in})
+			}
+			for i := range sexp.Want {
+				name := fmt.Sprintf("sib_o%d", i)
+				sn.Outputs = append(sn.Outputs, name)
+				g.Outputs = append(g.Outputs, mon.GInput{Name: name, NoType: true})
+			}
+			if len(sn.Outputs) > 0 {
+				g.Nodes = append([]mon.GNode{sn}, g.Nodes...)
+				osib := mon.RunGraph(g, feed)
+				c.Eval(1)
+				if osib.Kind == mon.Value && len(osib.Vals) >= nOut {
+					osib.Vals = osib.Vals[:nOut]
+					if len(osib.Raw) >= nOut {
+						osib.Raw = osib.Raw[:nOut]
+					}
+				}
+				c.Count("models-with-the-node-behind-a-sibling-of-its-type", 1)
+				if osib.Kind == mon.Error && osib.Phase == "load" {
+					// the sibling's weights are of a type no initializer can carry (complex, ...): not a model
+					c.Count("sibling-models-that-cannot-be-written", 1)
+				} else if v := Judge(exp, osib); !v.OK {
+					ok = false
+					report(c, fmt.Sprintf("model, node behind a sibling %s", trunc(sib.Describe(), 300)), req, exp, osib, v, known)
+				}
+			}
+		}
+	}
 	if viaModel {
 		om := mon.RunOpModel(req, mo)
 		c.Eval(1)
